@@ -38,7 +38,7 @@ type DocCase struct {
 
 var specC16 = report.Spec{Property: "C16", Check: "C16",
 	Rule: "the 14 built-in documents and the repository's test document, mutated 0-4 deep by a structure aware mutator over the parsed JSON tree (delete key, drop array element, replace by a value of another JSON type, replace a number by one of {0,-1,0.5,1.5,2^53,-2^53,2,256}, replace a string, " +
-		"swap the crs for each of its three forms (uri string/object, wkt with id, referenceSystem), re-spell a crs uri as object or string, extend an array, duplicate a tile matrix id), half of the mutations aimed at tile matrix fields, one third of the multi-mutation cases focused on one sub tree (a tile matrix, a variableMatrixWidths entry, the bounding box, the crs). Oracle: (a) decoding never panics; (b) if decoding succeeds: encoding succeeds, decode(encode(x)) equals x (field by field, a nil and an empty list being the same value) and behaves like x through the API (MatrixBoundingBox and FromNative per tile matrix: same result or same failure), and encode(decode(encode(x))) is byte-identical to encode(x); " +
+		"swap the crs for each of its three forms (uri string/object, wkt with id, referenceSystem), re-spell a crs uri as object or string, extend an array, duplicate a tile matrix id, add an optional member the document lacks - variableMatrixWidths (empty, one entry, null), keywords, description, title, cornerOfOrigin, boundingBox, orderedAxes, wellKnownScaleSet - with empty values included), half of the mutations aimed at tile matrix fields, one third of the multi-mutation cases focused on one sub tree (a tile matrix, a variableMatrixWidths entry, the bounding box, the crs). Oracle: (a) decoding never panics; (b) if decoding succeeds: encoding succeeds, decode(encode(x)) equals x (field by field, a nil and an empty list being the same value) and behaves like x through the API (MatrixBoundingBox and FromNative per tile matrix: same result or same failure), and encode(decode(encode(x))) is byte-identical to encode(x); " +
 		"(c) unmutated documents: encode(decode(doc)) equals doc as JSON values; (c') the encoding of a value decoded earlier in the run (one retained value per shipped document) does not change when other documents are decoded in between; (d) must-reject (decided by an independent predicate over the JSON tree): crs or tileMatrices missing/null/of the wrong JSON type, tileMatrices empty or holding a non-object, a required tile matrix field (id, scaleDenominator, cellSize, pointOfOrigin, tileWidth, tileHeight, matrixWidth, matrixHeight) missing or of the wrong JSON type, " +
 		"pointOfOrigin not two numbers, a size field (sizes, cellSize, scaleDenominator) <= 0, id not an integer string => decoding returns an error. Other mutants may go either way. (e) one case in three (by content): tms20.LoadJSONTileMatrixSet on a file with the same bytes gives the same verdict and value as decoding the bytes, and a document followed by anything but white space (a second value, a stray bracket, a number, merge conflict text) is refused by both routes. Non-trivial: >= 1 mutation and (still decodes, or falls in a must-reject class). Distinct by (base, mutations).",
 	Assumptions: []string{"numbers are confined to |v| <= 2^53", "equality of decoded values: structural, nil and empty lists identified, plus indistinguishable through MatrixBoundingBox/FromNative"}}
@@ -98,6 +98,12 @@ var crsForms = []string{
 	`"[EPSG:28992]"`, `"[EPSG]"`, `"[]"`, `"["`, `"EPSG:28992"`, `"EPSG:"`, `":28992"`, `"EPSG"`, `"28992"`, `"urn:ogc:def:crs:EPSG:"`, `"http://www.opengis.net/def/crs/EPSG/0/"`, `"http://www.opengis.net/def/crs/"`, `"/"`, `"::"`, `""`,
 	`{"uri":"[EPSG]"}`, `{"uri":""}`, `{"uri":"EPSG:28992"}`,
 }
+
+var optionalMatrixMembers = [][2]string{{"variableMatrixWidths", `[]`}, {"variableMatrixWidths", `[]`}, {"variableMatrixWidths", `[{"coalesce":2,"minTileRow":0,"maxTileRow":0}]`}, {"variableMatrixWidths", `null`},
+	{"description", `""`}, {"description", `"d"`}, {"keywords", `[]`}, {"keywords", `["k"]`}, {"title", `"t"`}, {"title", `""`}, {"cornerOfOrigin", `"bottomLeft"`}, {"cornerOfOrigin", `"topLeft"`}, {"cornerOfOrigin", `""`}}
+
+var optionalTopMembers = [][2]string{{"keywords", `[]`}, {"keywords", `["a","b"]`}, {"description", `""`}, {"title", `""`}, {"wellKnownScaleSet", `"http://www.opengis.net/def/wkss/OGC/1.0/GoogleMapsCompatible"`}, {"wellKnownScaleSet", `""`},
+	{"boundingBox", `{"lowerLeft":[0,0],"upperRight":[1,1]}`}, {"boundingBox", `{"lowerLeft":[0,0],"upperRight":[1,1],"crs":"http://www.opengis.net/def/crs/EPSG/0/3857","orderedAxes":["X","Y"]}`}, {"orderedAxes", `["X","Y"]`}, {"orderedAxes", `[]`}, {"uri", `""`}, {"id", `""`}}
 
 var extremeIDs = []string{`"9223372036854775807"`, `"-9223372036854775808"`, `"-9223372036854775807"`, `"9223372036854775806"`, `"-1"`, `"4611686018427387904"`,
 	// identifiers as other tile services spell them: prefixed, padded, signed, in another base - integers to a lenient reader, not to this one
@@ -273,7 +279,7 @@ func genC16(t *rapid.T) DocCase {
 	for k := 0; k < n; k++ {
 		var m Mut
 		top, _ := doc.(map[string]any)
-		target := rapid.IntRange(0, 10).Draw(t, "target")
+		target := rapid.IntRange(0, 11).Draw(t, "target")
 		var prefix []any
 		var sub any = doc
 		if focus != nil {
@@ -311,6 +317,15 @@ func genC16(t *rapid.T) DocCase {
 		case target == 6 && top != nil:
 			if v, ok := top["boundingBox"]; ok {
 				prefix, sub = []any{"boundingBox"}, v
+			}
+		case target == 11 && top != nil: // add an optional member that the document does not have (or overwrite it), empty values included
+			if tms, ok := top["tileMatrices"].([]any); ok && len(tms) > 0 && rapid.IntRange(0, 3).Draw(t, "addToMatrix") > 0 {
+				i := rapid.IntRange(0, len(tms)-1).Draw(t, "tm")
+				kv := rapid.SampledFrom(optionalMatrixMembers).Draw(t, "member")
+				m = Mut{Path: []any{"tileMatrices", float64(i), kv[0]}, Op: "set", Val: json.RawMessage(kv[1])}
+			} else {
+				kv := rapid.SampledFrom(optionalTopMembers).Draw(t, "member")
+				m = Mut{Path: []any{kv[0]}, Op: "set", Val: json.RawMessage(kv[1])}
 			}
 		case target == 7 && top != nil: // duplicate a tile matrix id
 			if tms, ok := top["tileMatrices"].([]any); ok && len(tms) > 1 {
